@@ -272,8 +272,24 @@ func c13NewEnv(scenario string) (*c13Env, error) {
 }
 
 // newestCert0: generation and hash of the newest cached certificate whose subject is subject0.
+// c13CacheSnapshot reads the cache through the hook, but gives up after half a second: the cache lock
+// may be held by a goroutine that sits at one of our gates (then there is nothing to see: nil).
+func (e *c13Env) c13CacheSnapshot() []certmagic.VerifCachedCert {
+	ch := make(chan []certmagic.VerifCachedCert, 1)
+	go func() {
+		certs, _ := certmagic.VerifCacheSnapshot(e.cfg)
+		ch <- certs
+	}()
+	select {
+	case certs := <-ch:
+		return certs
+	case <-time.After(500 * time.Millisecond):
+		return nil
+	}
+}
+
 func (e *c13Env) newestCert0() (int, string) {
-	certs, _ := certmagic.VerifCacheSnapshot(e.cfg)
+	certs := e.c13CacheSnapshot()
 	gen, hash := 0, ""
 	for _, c := range certs {
 		if len(c.Names) > 0 && c.Names[0] == e.subject0 {
@@ -287,7 +303,7 @@ func (e *c13Env) newestCert0() (int, string) {
 
 // certHash0: hash of the cached certificate of the given generation whose subject is subject0 ("" if none).
 func (e *c13Env) certHash0(gen int) string {
-	certs, _ := certmagic.VerifCacheSnapshot(e.cfg)
+	certs := e.c13CacheSnapshot()
 	for _, c := range certs {
 		if len(c.Names) > 0 && c.Names[0] == e.subject0 && c02IDOfSerial(c.Serial) == gen {
 			return c.Hash
@@ -395,7 +411,10 @@ var c13ErrUnsettled = errors.New("goroutines did not come to rest")
 // get the position "running" and c13ErrUnsettled is returned.
 func (e *c13Env) settle() error {
 	deadline := time.Now().Add(10 * time.Second)
+	lockSince := map[int64]time.Time{} // goroutines seen blocked on a mutex: since when
+	blocked := false
 	for {
+		blocked = false
 		// first what the goroutines have reported themselves (at a gate / returned), THEN the dump:
 		// a goroutine that reported is blocked or finished for good, the others are judged by a
 		// stop-the-world snapshot taken afterwards, so the combination is a consistent state
@@ -461,7 +480,22 @@ func (e *c13Env) settle() error {
 				} else if g.State == "select" && strings.HasSuffix(top, "doubles.(*MemStorage).Lock") {
 					// blocked on the certificate lock in storage: a second worker for the same name
 					pos[i] = "blocked-lock"
+				} else if strings.HasPrefix(g.State, "sync.") || g.State == "semacquire" {
+					// blocked on a mutex inside certmagic (e.g. the certificate cache's lock held by a
+					// worker that sits at one of our storage gates): if it stays so for more than a
+					// second it is recorded as a position of its own — it is not one of the three waiting
+					// selects, so the specification fails on it — and the case ends
+					if t0, seen := lockSince[th.gid]; !seen {
+						lockSince[th.gid] = time.Now()
+						ok, why = false, fmt.Sprintf("thread %d: state %q in %s", th.tid, g.State, top)
+					} else if time.Since(t0) < 1200*time.Millisecond {
+						ok, why = false, fmt.Sprintf("thread %d: state %q in %s", th.tid, g.State, top)
+					} else {
+						pos[i] = "blocked-on-cache-lock"
+						blocked = true
+					}
 				} else {
+					delete(lockSince, th.gid)
 					ok, why = false, fmt.Sprintf("thread %d: state %q in %s", th.tid, g.State, top)
 				}
 			}
@@ -485,6 +519,10 @@ func (e *c13Env) settle() error {
 			if g.SpawnedByCertmagicHandshake() && !known[g.ID] {
 				ok, why = false, fmt.Sprintf("unregistered background goroutine %d", g.ID)
 			}
+		}
+		if ok && blocked {
+			fmt.Fprintf(os.Stderr, "C13: a handshake goroutine is blocked on a mutex inside certmagic while the others are at rest\n")
+			return c13ErrUnsettled
 		}
 		if ok {
 			return nil
@@ -543,7 +581,7 @@ func (e *c13Env) shutdown() {
 // ---------------------------------------------------------------- one case
 
 var c13PosCode = map[string]int{"at-decision": 0, "at-load": 1, "at-issue": 2, "wait-load": 3, "wait-obtain": 4, "wait-renew": 5,
-	"done-empty": 7, "done-err": 8, "exited": 9, "blocked-lock": 10, "running": 10, "at-exists": 11}
+	"done-empty": 7, "done-err": 8, "exited": 9, "blocked-lock": 10, "running": 10, "blocked-on-cache-lock": 10, "at-exists": 11}
 
 type c13Seen struct {
 	Action c13Action `json:"action"`
@@ -894,6 +932,19 @@ func runC13(tier string, seed int64, outdir string, replay string) error {
 }
 
 func c13Run(tier string, seed int64, outdir string, replay string) error {
+	// a case in which some goroutine did not come to rest (it spins, or is blocked on a lock) is recorded
+	// and the run goes on; after three of them it stops (each costs a second or more)
+	hangs := 0
+	c13RunCase := func(w *emit.Writer, cs *c13Case, desc map[string]any) error {
+		err := c13RunCase(w, cs, desc)
+		if errors.Is(err, c13ErrUnsettled) && replay == "" {
+			hangs++
+			if hangs < 3 {
+				return nil
+			}
+		}
+		return err
+	}
 	w := emit.NewWriter(outdir, "C13", tier, seed)
 	defer w.Close()
 	w.Meta.Rule = "distinct (scenario, schedule) pairs with at least two goroutines"
